@@ -36,6 +36,20 @@ def make_parser(pest, table):
     return P()
 
 
+def renaming(table) -> dict:
+    """prefix operator name -> an infix / postfix operator name of the same table (positions keep the roles apart)."""
+    others = sorted(table["inf"]) + sorted(table["post"])
+    return dict(zip(sorted(table["pre"]), others))  # one to one: a prefix operator left over keeps its own name
+
+
+def rename_tree(t, ren):
+    if isinstance(t, list) and t and t[0] == "pre":
+        return ["pre", ren.get(t[1], t[1]), rename_tree(t[2], ren)]
+    if isinstance(t, list):
+        return [rename_tree(x, ren) if isinstance(x, list) else x for x in t]
+    return t
+
+
 def run(tier: str) -> int:
     rep = C.Report("C18", tier)
     rep.distinct = None
@@ -83,6 +97,35 @@ def run(tier: str) -> int:
                 )
             elif len(toks) == maxtoks:
                 rep.sample({"table": table, "tokens": [t["n"] for t in toks], "denoted_tree": case["tree"]}, limit=4)
+            # the same instance once more, the way a statement parser meets it: (i) a rule name may sit in two tables - unary and
+            # binary minus are one rule - and which operator a token is follows from WHERE it stands (a prefix operator stands
+            # where an operand is expected), so the prefix names are renamed to infix / postfix names of the same table;
+            # (ii) the stream has been looked at before (next, peek, backup - one token of lookahead, then put back)
+            ren = renaming(table)
+            if ren or len(toks) > 1:
+                table2 = {"inf": table["inf"], "post": table["post"], "pre": {ren.get(k, k): v for k, v in table["pre"].items()}}
+                parser2 = make_parser(pest, table2)
+                toks2 = [({**t, "n": ren.get(t["n"], t["n"])} if t["t"] == "pre" else t) for t in toks]
+                pairs2 = []
+                for i, t in enumerate(toks2):
+                    name = "x" if t["t"] == "p" else t["n"]
+                    pairs2.append(Pair(text, i + 1, i + 1, frames.setdefault(name, RuleFrame(name, 0))))
+                stream2 = Stream(pairs2)
+                if len(toks) > 1:
+                    stream2.next()
+                    stream2.peek()
+                    stream2.backup()
+                want2 = rename_tree(case["tree"], ren)
+                rep.evaluations += 1
+                try:
+                    got2 = parser2.parse_expr(stream2)
+                    rest2 = stream2.peek()
+                except Exception as e:  # noqa: BLE001
+                    rep.violation({"kind": "pratt-shared-names", "table": table2, "tokens": toks2, "error": f"{type(e).__name__}: {e}"}, f"PrattParser raised {type(e).__name__}: {e} on {[t['n'] for t in toks2]} with {table2} (prefix operators sharing rule names with infix / postfix ones; stream inspected before)")
+                    continue
+                if got2 != want2 or rest2 is not None:
+                    rep.violation({"kind": "pratt-shared-names", "table": table2, "tokens": toks2, "denoted_tree": want2, "built_tree": got2, "stream_consumed": rest2 is None},
+                                  f"table {table2} stream {[t['n'] for t in toks2]} (inspected with next/peek/backup before): built {got2}, denoted {want2}, consumed={rest2 is None}")
 
     st = C.run_tlc("OpExpr", cfg, on_line=on_line, workers=8 if not thorough else 16, tag="OpExpr", xmx="8g")
     C.require_tlc_ok(st, "OpExpr")
